@@ -42,13 +42,13 @@ theorem mergeRows_conflict (a b : Row) (v : Var) (x y : Val)
     (ha : Row.get a v = some x) (hb : Row.get b v = some y) (hne : x ≠ y) : mergeRows a b = none := by
   unfold mergeRows
   have hm := Row.get_mem ha
-  split
-  · rename_i hall
-    rw [List.all_eq_true] at hall
-    have := hall (v, x) hm
-    simp only [hb] at this
-    exact absurd (by simpa using this) hne
-  · rfl
+  have : compatB a b = false := by
+    unfold compatB
+    rw [List.all_eq_false]
+    refine ⟨(v, x), hm, ?_⟩
+    simp only [hb]
+    simpa using hne
+  rw [this]; rfl
 
 /-- two different join keys over the same variables witness a conflicting variable -/
 theorem joinKey_ne_conflict (a b : Row) (keys : List Var) (k k' : List Val)
@@ -341,14 +341,13 @@ def InputIndep (db : DB) (p : Plan) : Prop :=
 
 theorem mergeRows_nil_right (a : Row) : mergeRows a [] = some a := by
   unfold mergeRows
-  split
-  · rfl
-  · rename_i h
-    exfalso; apply h
-    rw [List.all_eq_true]; intro e _; obtain ⟨k, x⟩ := e; simp [Row.get]
+  have : compatB a [] = true := by
+    unfold compatB
+    rw [List.all_eq_true]; intro e _; simp [Row.get]
+  rw [this]; rfl
 
 theorem mergeRows_nil_left (b : Row) : ∃ r, mergeRows [] b = some r := by
-  unfold mergeRows; simp
+  unfold mergeRows compatB; simp
 
 theorem nlJoin_unit_right (inc : List Row) : nlJoin inc [[]] = inc := by
   unfold nlJoin
